@@ -185,8 +185,9 @@ def docAt (t : Tabs) (I m : Url) : Option AsmDoc :=
   | some (.doc d) => if specAsmOk d I then some d else none
   | _ => none
 
+/-- Every metadata location of `I` was requested, and every requested location of `I` answered 4xx. -/
 def all4xx (t : Tabs) (gets : List Url) (I : Url) : Bool :=
-  (mineOf gets I).length == (asmCandidates I).length && (mineOf gets I).all (is4xx t)
+  (asmCandidates I).all (fun m => gets.contains m) && (mineOf gets I).all (is4xx t)
 
 /-- The metadata the round may work with for issuer `I`: valid documents served at requested
 locations of `I`, and the 2025-03-26 fall-back when every location was requested and answered 4xx. -/
